@@ -33,8 +33,11 @@ class C16(Prop):
             "(scale invariance); every single-defect corruption (a NaN, a non-positive value, a duplicated index "
             "entry, an unsorted index, a non-datetime index, a NaT) must be rejected by every metric. Non-trivial = "
             "an intraday series with several observations per day, or a corrupted series, or a series with a "
-            "benchmark; distinct = distinct cases")
-    nontrivial_tags = {"intraday", "corrupted", "benchmark", "long"}
+            "benchmark; distinct = distinct cases. 6% of the series are long daily histories (800-1300 observations) with "
+            "an early crash, measured on CAGR / cumulative return / max drawdown / Calmar; for every other valid series "
+            "of at least 3 daily levels the rows of tearsheet() are checked too (against the independent definitions, "
+            "risk-adjusted rows against the metric called with the tearsheet's own risk-free series)")
+    nontrivial_tags = {"tearsheet-long-history", "intraday", "corrupted", "benchmark", "long"}
     assumptions = [
         "sqrt, log and ** are leaves (C library in both the executed model and the implementation), 1e-9 relative",
         "quantiles use pandas' default linear interpolation; ddof = 1",
@@ -266,6 +269,45 @@ class C16(Prop):
             if not close(v1, v2, 1e-7):
                 r.fail("not-scale-invariant", metric=name, value=v1, scaled=v2, factor=k,
                        theorem="metric_of_returns_scale_invariant / metric_of_drawdown_scale_invariant / ratio_scale")
+        # ---------------- the tearsheet reports the same metrics (rows independent of the risk-free asset against the
+        # independent definitions; the risk-adjusted rows against the metric called with the tearsheet's own
+        # risk-free series)
+        if not case.get("only") and len(L) >= 3:
+            try:
+                ts = s.tearsheet(risk_free=rf)
+                col = ts.iloc[:, 0]
+                rows = {"cagr": ("Return", "CAGR"), "vol": ("Risk", "Volatility"), "downvol": ("Risk", "Downside volatility"),
+                        "upvol": ("Risk", "Upside volatility"), "maxdd": ("Risk", "Max drawdown"), "martin": ("Risk", "Martin risk")}
+                for name, key in rows.items():
+                    want = exp.get(name)
+                    if want is None or (isinstance(want, float) and (math.isnan(want) or math.isinf(want))):
+                        continue
+                    val = float(col[key])
+                    if math.isnan(val) or math.isinf(val):
+                        continue
+                    if not close(val, want, 1e-8):
+                        r.fail("tearsheet-row", row=" / ".join(key), reported=val, expected=want,
+                               clause="each reported metric equals its textbook definition (the tearsheet's rows too)")
+                rfs = s.make_series_from_cagr(rf, "RiskFree").loc[s.index]
+                for key, fn in ((("Risk-adjusted return", "Calmar ratio"), lambda: s.calmar_ratio(rfs)),
+                                (("Risk-adjusted return", "Sharpe ratio"), lambda: s.sharpe_ratio(rfs)),
+                                (("Risk-adjusted return", "Sortino ratio"), lambda: s.sortino_ratio(rfs)),
+                                (("Risk-adjusted return", "Martin ratio"), lambda: s.martin_ratio(rfs)),
+                                (("Risk", "VaR 5%"), lambda: s.value_at_risk(0.05)),
+                                (("Risk", "Expected shortfall 2%"), lambda: s.expected_shortfall(0.02))):
+                    try:
+                        want = float(fn())
+                    except Exception:
+                        continue
+                    val = float(col[key])
+                    if any(math.isnan(x) or math.isinf(x) for x in (val, want)):
+                        continue
+                    if not close(val, want, 1e-9):
+                        r.fail("tearsheet-row", row=" / ".join(key), reported=val, expected=want,
+                               clause="the tearsheet reports the metric it names")
+                r.tags.add("tearsheet")
+            except Exception as e:  # noqa  (the tearsheet needs enough observations for every metric; not judged when it refuses)
+                r.trace.append(f"tearsheet raised {type(e).__name__}: {str(e)[:100]}")
         return r
 
 
